@@ -4,6 +4,7 @@
 //! (with one retry after a conflict) on the same file of a real `WebIdeState`.
 
 use super::c19_confine;
+use super::c19_hist;
 use crate::fw::*;
 use crate::iso::{self, PoolCfg, WorkerFn};
 use crate::x3;
@@ -228,6 +229,8 @@ pub fn run(ctx: &Ctx) -> EngineResult {
             "part 1 (confinement): {confine_rule} | part 2 (writers): every schedule (Mutex operations of the IDE state lock + the un-locked disk read and the locked disk write as scheduling points, deviation-bounded) of k editor sessions each doing open -> apply(expected = seen version) with retries on the same file; non-trivial = distinct (final file content, number of conflicts) outcomes"
         ),
     );
+    // part 3: sequential multi-step histories (create/rename/move/delete between open and save)
+    c19_hist::run_part(ctx, &mut rep)?;
     if !rep.coverage.contains_key("exhaustive") {
         rep.set("exhaustive", true);
     }
@@ -238,6 +241,9 @@ pub fn run(ctx: &Ctx) -> EngineResult {
 pub fn check_case(case: &Value) -> Vec<Violation> {
     if case["part"] == "confine" {
         return c19_confine::check_case(case);
+    }
+    if case["part"] == "hist" {
+        return c19_hist::check_case(case);
     }
     let sc = &case["scenario"];
     let cfg = pool(1, None);
@@ -252,5 +258,6 @@ pub fn check_case(case: &Value) -> Vec<Violation> {
 pub fn workers() -> Vec<(&'static str, WorkerFn)> {
     let mut v = vec![("c19_exec", worker_exec as iso::WorkerFn)];
     v.extend(c19_confine::workers());
+    v.extend(c19_hist::workers());
     v
 }
